@@ -100,6 +100,45 @@ def Count(lst: Any, x: Any) -> Any:
     return list(lst).count(x)
 
 
+def Len(lst: Any) -> Any:
+    from .values import VList, VTuple
+    if isinstance(lst, VList):
+        return lst.length()
+    return len(lst)
+
+
+def _idx_quant(lst: Any, fn: Callable[..., Any], upto: Any, universal: bool) -> Any:
+    from .values import VList, fresh_name, from_term
+    if isinstance(lst, VList):
+        ctx = current()
+        ex, st = ctx.ex, ctx.st
+        j = z3.Int(fresh_name("qj"))
+        n = ex.list_len(lst, st).term
+        hi = n if upto is None else V_._i(upto)
+        elem = ex.list_get(lst, j, st)
+        body = V_._b(fn(VInt(j), elem))
+        rng = z3.And(j >= 0, j < hi, j < n)
+        _, el = ex._elem_arr(st, lst.elem)
+        pat = z3.Select(z3.Select(el, lst.ref), j)
+        try:
+            return VBool(z3.ForAll([j], z3.Implies(rng, body), patterns=[pat]) if universal
+                         else z3.Exists([j], z3.And(rng, body), patterns=[pat]))
+        except z3.Z3Exception:
+            return VBool(z3.ForAll([j], z3.Implies(rng, body)) if universal else z3.Exists([j], z3.And(rng, body)))
+    items = list(lst) if upto is None else list(lst)[:upto]
+    rs = [bool(fn(j, x)) for j, x in enumerate(items)]
+    return all(rs) if universal else any(rs)
+
+
+def ForallIdx(lst: Any, fn: Callable[..., Any], upto: Any = None) -> Any:
+    """for all positions j (< upto) of the list: fn(j, lst[j])"""
+    return _idx_quant(lst, fn, upto, True)
+
+
+def ExistsIdx(lst: Any, fn: Callable[..., Any], upto: Any = None) -> Any:
+    return _idx_quant(lst, fn, upto, False)
+
+
 def IsNone(x: Any) -> Any:
     if isinstance(x, VUnion):
         return x.is_none()
@@ -270,6 +309,7 @@ class Contract:
         self.notes: str = ""
         self.xval: Optional[Callable[..., Any]] = None  # generator of native inputs for cross-validation
         self.reify: Optional[Callable[..., Any]] = None
+        self.samples: Optional[Callable[[], Any]] = None   # native argument dicts (cross-validation, frame replay)
 
 
 REGISTRY: Dict[str, Contract] = {}
